@@ -27,6 +27,8 @@ import (
 //   - add/del hand the op to rwc.Hub and then hand it a no-op (Delete of an id nobody uses): when
 //     that second hand-off is taken the hub goroutine has finished the first op completely.
 //     Hub.Rules/Hub.Clients are read only right after such a barrier (they are not locked: K5).
+//   - `dell k` reads Hub.Rules after a barrier, deletes the k-th listed id (mod the number listed) and
+//     reports it: deleting a rule by the id the implementation itself lists it under.
 //   - `await d n t` waits (<= 2 s, `slow` <= 12 s) until n sockets to d are open and t have been
 //     accepted in total, and prints what it actually saw: "promptly" = within that bound.
 //   - bcast/inject wait until k sockets got the message (re-sending after 400 ms, at most 3 times,
@@ -165,6 +167,19 @@ func rwcAtoi(s string) int {
 		return 0
 	}
 	return v
+}
+
+// rwcIndex: 1..6 decimal digits, nothing else
+func rwcIndex(s string) (int, bool) {
+	if len(s) == 0 || len(s) > 6 {
+		return 0, false
+	}
+	for _, c := range s {
+		if c < '0' || c > '9' {
+			return 0, false
+		}
+	}
+	return rwcAtoi(s), true
 }
 
 func rwcIsHex(s string) bool {
@@ -307,6 +322,35 @@ func init() {
 						return "stuck"
 					}
 					return "ok"
+				case fs[0] == "dell" && len(fs) == 2:
+					// delete the k-th rule of the hub's own listing (ids sorted by their hex form) BY THE ID
+					// IT IS LISTED UNDER -- what an API user does after GET destinations/all -- and say which
+					k, ok := rwcIndex(fs[1])
+					if !ok {
+						return "bad-op"
+					}
+					if !barrier() {
+						return "stuck"
+					}
+					var ids []string
+					for id := range h.Rules {
+						ids = append(ids, enhex(id))
+					}
+					if len(ids) == 0 {
+						return "deleted=none"
+					}
+					sort.Strings(ids)
+					hid := ids[k%len(ids)]
+					id, _ := unhex(hid)
+					select {
+					case h.Delete <- id:
+					case <-time.After(5 * time.Second):
+						return "stuck"
+					}
+					if !barrier() {
+						return "stuck"
+					}
+					return "deleted=" + hid
 				case fs[0] == "down" && len(fs) == 2 && rwcIsHex(fs[1]):
 					env.mu.Lock()
 					env.down[fs[1]] = true
